@@ -165,6 +165,12 @@ SLOTS = ("angular", "distance", "velocity", "pressure", "temperature", "diameter
          "drop", "energy", "ogw", "sight_height", "target_height", "twist")
 
 
+def global_max_step_ft():
+    """The global maximum step in feet, read through the public getter (the private float it is kept in may be renamed)."""
+    from py_ballisticcalc import Distance  # pylint: disable=import-outside-toplevel
+    return pb.get_global_max_calc_step_size() >> Distance.Foot
+
+
 def globals_snapshot():
     """Process-wide state of the library that no argument carries: the documented globals and, found by walking the loaded
     modules, every module-level datum and every class-level data attribute of the package (a change of any of them by a
@@ -192,8 +198,8 @@ def globals_snapshot():
             elif isinstance(v, data) and not isinstance(v, types.ModuleType):
                 walked[f"{name}.{k}"] = snap(v)
     return {"preferred": {s: getattr(PreferredUnits, s) for s in SLOTS},
-            "max_step": tcpkg._globalMaxCalcStepSizeFeet,  # pylint: disable=protected-access
-            "powder": tcpkg._globalUsePowderSensitivity,  # pylint: disable=protected-access
+            "max_step": global_max_step_ft(),
+            "powder": getattr(tcpkg, "_globalUsePowderSensitivity", None),
             "walked": walked}
 
 
